@@ -274,7 +274,7 @@ func cmdCheck(args []string) {
 	}
 	nViol := 0
 	var known []string
-	exit := 0
+	exitCode := 0
 	replayRoot := filepath.Join(verifRoot, "replays", *prop)
 	os.RemoveAll(replayRoot)
 	for _, sig := range sigs {
@@ -310,7 +310,7 @@ func cmdCheck(args []string) {
 			fmt.Printf("KNOWN-FINDING: property=%s %s [%s] (%d paths)\n", *prop, open[sig].What, sig, len(vs))
 		default:
 			nViol++
-			exit = 1
+			exitCode = 1
 			fmt.Printf("VIOLATION property=%s replay=%s\n", *prop, dir)
 			fmt.Printf("  signature: %s (%d paths)\n", sig, len(vs))
 			if vs[0].Replay != nil {
@@ -392,10 +392,10 @@ func cmdCheck(args []string) {
 	}
 	fmt.Printf("[%s %s] paths=%d obligations=%d discharged=%d validated_natively=%d violations=%d known=%d inconclusive=%d wall=%.1fs\n",
 		*prop, *tier, tot.paths, tot.oblig, tot.disch, validated, nViol, len(known), len(inconclusive), time.Since(t0).Seconds())
-	if exit == 0 && len(inconclusive) > 0 {
-		exit = 2
+	if exitCode == 0 && len(inconclusive) > 0 {
+		exitCode = 2
 	}
-	os.Exit(exit)
+	exit(exitCode)
 }
 
 func equalStrs(a, b []string) bool {
